@@ -79,6 +79,17 @@ fn fusable(r: &mut Rng) -> Vec<String> {
         };
         v.push(format!("{}{}{}", exc, pat, o));
     }
+    // near twins: the pattern of a rule of the list again, under the other option set (after
+    // optimize() the first one may sit inside a fused rule; the twin is a different rule)
+    if r.chance(1, 2) && !v.is_empty() {
+        let k = r.below(v.len());
+        let base = v[k].clone();
+        let pat = base.trim_start_matches("@@").split('$').next().unwrap_or("").to_string();
+        if !pat.is_empty() {
+            let other = if base.contains("$script") { "$image" } else { "$script" };
+            v.push(format!("{}{}", pat, other));
+        }
+    }
     // rules dispatched per source domain (no pattern token, several domains) are held by several
     // buckets; together with single-bucket rules keyed by one of those domains they exercise the
     // shared / owned split of NetworkFilterList::optimize
